@@ -12,58 +12,79 @@ use crate::rec::*;
 use serde_json::json;
 
 /// (case name, note of the catalogue root, JSON text)
+/// Deepest nesting of `build(levels)` that serde_json still parses.
+fn deepest(build: &dyn Fn(usize) -> String) -> String {
+    let mut levels = 130;
+    loop {
+        let t = build(levels);
+        if serde_json::from_str::<serde_json::Value>(&t).is_ok() {
+            return t;
+        }
+        levels -= 1;
+        assert!(levels > 10, "no parseable depth found");
+    }
+}
+
+/// (case name, note of the catalogue root, JSON text)
 pub fn deep_cases() -> Vec<(String, &'static str, String)> {
     let mut out = vec![];
     let r1 = "recursive struct (Option<Box<Self>>)";
     let r2 = "recursive tagged enum (Vec<Self>)";
     let jv = "serde_json::Value as a target";
-    // serde_json's recursion limit is 128 nested arrays/objects
     for (leaf_name, leaf) in [("valid", "null"), ("wrong-kind", "\"x\""), ("object", "{\"zz\":1}")] {
         // R1: {"v":1,"next":{...}} — one level of nesting per object
-        let mut t = String::new();
-        let levels = if leaf.starts_with('{') { 126 } else { 127 };
-        for _ in 0..levels {
-            t.push_str("{\"v\":1,\"next\":");
-        }
-        t.push_str(&format!("{{\"v\":2,\"next\":{leaf}}}"));
-        for _ in 0..levels {
-            t.push('}');
-        }
-        out.push((format!("r1-{leaf_name}"), r1, t));
+        out.push((
+            format!("r1-{leaf_name}"),
+            r1,
+            deepest(&|levels| {
+                let mut t = String::new();
+                for _ in 0..levels {
+                    t.push_str("{\"v\":1,\"next\":");
+                }
+                t.push_str(&format!("{{\"v\":2,\"next\":{leaf}}}"));
+                for _ in 0..levels {
+                    t.push('}');
+                }
+                t
+            }),
+        ));
         // R2: {"t":"Node","kids":[{...}]} — two levels per node
-        let mut t = String::new();
-        let levels = 63;
-        for _ in 0..levels {
-            t.push_str("{\"t\":\"Node\",\"kids\":[");
-        }
-        t.push_str(&match leaf {
-            "null" => "{\"t\":\"Leaf\"}".to_string(),
-            other => format!("{{\"t\":\"Node\",\"kids\":{other}}}"),
-        });
-        for _ in 0..levels {
-            t.push_str("]}");
-        }
-        out.push((format!("r2-{leaf_name}"), r2, t));
+        out.push((
+            format!("r2-{leaf_name}"),
+            r2,
+            deepest(&|levels| {
+                let mut t = String::new();
+                for _ in 0..levels {
+                    t.push_str("{\"t\":\"Node\",\"kids\":[");
+                }
+                t.push_str(&match leaf {
+                    "null" => "{\"t\":\"Leaf\"}".to_string(),
+                    other => format!("{{\"t\":\"Node\",\"kids\":{other}}}"),
+                });
+                for _ in 0..levels {
+                    t.push_str("]}");
+                }
+                t
+            }),
+        ));
         // Value: [[[[…]]]] and {"a":{"a":…}}
-        let mut t = "[".repeat(127);
-        t.push_str(leaf);
-        t.push_str(&"]".repeat(127));
-        out.push((format!("value-array-{leaf_name}"), jv, t));
-        let mut t = "{\"a\":".repeat(127);
-        t.push_str(leaf);
-        t.push_str(&"}".repeat(127));
-        out.push((format!("value-object-{leaf_name}"), jv, t));
+        out.push((
+            format!("value-array-{leaf_name}"),
+            jv,
+            deepest(&|levels| format!("{}{leaf}{}", "[".repeat(levels), "]".repeat(levels))),
+        ));
+        out.push((
+            format!("value-object-{leaf_name}"),
+            jv,
+            deepest(&|levels| format!("{}{leaf}{}", "{\"a\":".repeat(levels), "}".repeat(levels))),
+        ));
     }
-    // wide and deep: faults at every level of R1 (every level lacks "v")
-    let mut t = String::new();
-    for _ in 0..127 {
-        t.push_str("{\"next\":");
-    }
-    t.push_str("null");
-    for _ in 0..127 {
-        t.push('}');
-    }
-    out.push(("r1-missing-at-every-level".into(), r1, t));
+    // faults at every level of R1 (every level lacks "v")
+    out.push((
+        "r1-missing-at-every-level".into(),
+        r1,
+        deepest(&|levels| format!("{}null{}", "{\"next\":".repeat(levels), "}".repeat(levels))),
+    ));
     out
 }
 
